@@ -90,9 +90,10 @@ def global_uses(prog, q):
     return out
 
 
-def writes_via_derived(fn, q):
-    """Definite writes through local pointers derived from global q.
-    Returns [(stmt id, text)]."""
+def writes_via_derived(fn, q, via_calls=()):
+    """Definite writes through local pointers derived from global q (or from
+    the result of a call to one of via_calls, functions that return a pointer
+    into q).  Returns [(stmt id, text)]."""
     seeds = {}
     changed = True
     rounds = 0
@@ -100,6 +101,8 @@ def writes_via_derived(fn, q):
     def mentions(e):
         for j in fn.walk(e):
             s2 = fn.s(j)
+            if via_calls and s2["k"] in P.CALL_KINDS and s2.get("callee", {}).get("key") in via_calls:
+                return True
             if s2["k"] == "DeclRefExpr":
                 if s2["ref"]["k"] == "global" and s2["ref"].get("q") == q:
                     return True
@@ -372,6 +375,16 @@ def run(ctx, prog):
                 dw = []
                 for efn in set(x[0] for x in esc):
                     dw += [(efn, a, b) for a, b in writes_via_derived(efn, g["q"])]
+                if not dw:
+                    # the address is returned as a pointer to non-const: follow it into the callers
+                    for efn, ei, u in esc:
+                        rt = efn.d.get("ret", "") or ""
+                        in_ret = any(efn.s(a_)["k"] == "ReturnStmt" for a_ in efn.ancestors(ei))
+                        if in_ret and "*" in rt and purity.nonconst_pointee(rt):
+                            for cf in prog.fns.values():
+                                if any(st_["callee"]["key"] == efn.key for _i, st_ in cf.calls()):
+                                    for a, b in writes_via_derived(cf, g["q"], via_calls=(efn.key,)):
+                                        dw.append((cf, a, "%s (through the pointer %s returns)" % (b, efn.short)))
                 if not dw:
                     for efn, ei, u in esc:
                         if u.startswith("escape:arg"):
